@@ -201,9 +201,21 @@ def validity_part(rep, kind):
         if k == 'ok':
             # no incompatible combination may be accepted
             if ex.check(pc + [anyc]) == z3.sat:
-                mdl = ex.model()
-                bad = [lbl for lbl, c in table if z3.is_true(mdl.eval(c, model_completion=True))]
-                confirm(f'{kind}: incompatible combination accepted: {bad}', mdl, ('ok', 'panic'), f'{kind}/accepted/{bad[0] if bad else ""}')
+                # one witness per table row, minimal in the other rows and attributes (a later stage of the derive may reject a richer
+                # combination for another reason, which would hide the acceptance from the native replay)
+                done = False
+                for lbl, c in table:
+                    others = [z3.Not(c2) for l2, c2 in table if l2 != lbl]
+                    if ex.check(pc + [c] + others) == z3.sat:
+                        mdl = ex.model()
+                        n_before = len(rep.violations)
+                        confirm(f'{kind}: incompatible combination accepted: {[lbl]}', mdl, ('ok', 'panic'), f'{kind}/accepted/{lbl}')
+                        done = done or len(rep.violations) > n_before
+                if not done:
+                    mdl = ex.model() if ex.check(pc + [anyc]) == z3.sat else None
+                    if mdl is not None:
+                        bad = [lbl for lbl, c in table if z3.is_true(mdl.eval(c, model_completion=True))]
+                        confirm(f'{kind}: incompatible combination accepted: {bad}', mdl, ('ok', 'panic'), f'{kind}/accepted/{bad[0] if bad else ""}')
             else:
                 discharged += 1
         else:
@@ -241,7 +253,10 @@ def native_verdict(kind, mdl, V, shape_named):
     if kind == 'FieldAttr':
         src = f'struct S {{ {attrs}f: Option<i32> }}' if shape_named else f'struct S({attrs}Option<i32>, i32);'
     elif kind == 'StructAttr':
-        src = f'{attrs}struct S {{ a: Option<i32> }}' if shape_named else f'{attrs}struct S(i32, i32);'
+        # the shape the model chose: named / tuple with fields / tuple without fields / unit
+        kd = mdl.eval(z3.BitVec('fields.kind', 64), model_completion=True).as_long()
+        empty = any(str(d).endswith('.is_empty') and z3.is_true(mdl[d]) for d in mdl.decls())
+        src = f'{attrs}struct S {{ a: Option<i32> }}' if shape_named else (f'{attrs}struct S;' if kd == 2 else (f'{attrs}struct S();' if empty else f'{attrs}struct S(i32, i32);'))
     elif kind == 'EnumAttr':
         src = f'{attrs}enum E {{ A }}'
     else:
